@@ -48,8 +48,9 @@ def run(ctx):
     ctx.decided("column and string seek provenance, row-header skip constant, sub-row stride")
     ctx.decided("language code table, page file-name templates, header path template")
     ctx.decided("root-list reader separators and line-ending handling (ROOTLIST)")
+    ctx.decided("the row lookup scans the whole row index: no exit other than exhaustion or the matching row (ROWSCAN)")
     ctx.decided("no mutable state other than the cursor flows between cell / sub-row decodes (STATELESS)")
-    ctx.not_decided("row lookup across pages; string contents; numeric cell values; u16 overflow of the sub-row offset arithmetic for large sheets")
+    ctx.not_decided("row lookup across pages (which page file holds an id); string contents; numeric cell values; u16 overflow of the sub-row offset arithmetic for large sheets")
 
     n = w1(ctx, ["exh::EXHHeader", "exh::ExcelColumnDefinition", "exh::ExcelDataPagination", "exh::EXH", "exd::EXDHeader", "exd::ExcelDataOffset", "exd::ExcelDataRowHeader", "exd::EXD"])
     ctx.floor("W1", "excel types", n, 8)
@@ -368,6 +369,9 @@ def run(ctx):
                     okp = d_ is not None and "calculate_filename" in {c_.split("::")[-1] for c_ in d_.calls} and (pcs[1][0] == "opaque" or pcs[1][2] == (0, 10, False))
         ctx.ob("NAMES", "page-path", okp, f"page paths extracted by read_excel_sheet: {seen}; must be exd/ + EXD::calculate_filename(..)", sb_.file, sb_.line)
 
+    # ---- ROWSCAN
+    _rowscan(ctx, prog)
+
     # ---- ROOTLIST: sheets are located through the parsed root list (rows `name,id`, LF or CRLF terminated)
     er = prog.body("exl::EXL::from_existing")
     if not er:
@@ -376,3 +380,78 @@ def run(ctx):
         from .c08 import exl_reader
 
         exl_reader(ctx, er, "ROOTLIST", "ROOTLIST")
+
+
+def _rowscan(ctx, prog):
+    """ROWSCAN: the row lookup visits the whole row index: the scan leaves only by exhaustion or inside the branch taken
+    for `row_id == id` (no early exit that assumes an ordering of the ids)."""
+    from ..loops import classify
+    from ..prov import derive, index_of
+
+    row = prog.body("exd::EXD::read_row")
+    if not row:
+        ctx.fail_closed("ROWSCAN", "exd::EXD::read_row not found")
+        return
+    ix = index_of(row)
+    # find() form
+    for _bi, t in row.calls():
+        if (t.get("res") or "").split("::")[-1] == "find" and len(t["args"]) == 2 and "data_offsets" in derive(ix, t["args"][0]).names:
+            k = ix.resolve(t["args"][1])
+            ok = False
+            calls_recv = {c_.split("::")[-1] for c_ in derive(ix, t["args"][0]).calls}
+            if k[0] == "rv" and k[1]["k"] == "agg" and k[1].get("ak") == "closure" and not ({"rev", "skip", "take", "take_while", "skip_while", "filter", "step_by"} & calls_recv):
+                cb = prog.body(k[1]["closure"])
+                cix = index_of(cb) if cb else None
+                for _b2, _s2, st in (cb.stmts() if cb else []):
+                    rv = st.get("rv") or {}
+                    if st["k"] == "assign" and rv.get("k") == "bin" and rv["op"] == "Eq":
+                        da, db = derive(cix, rv["a"]), derive(cix, rv["b"])
+                        for el, cap in ((da, db), (db, da)):
+                            if "row_id" in el.names and 2 in el.params and cap.outer_params == {3}:
+                                ok = True
+            ctx.ob("ROWSCAN", "whole-index", ok, "the row is looked up with a forward find() over the whole row index comparing row_id with the requested id", row.file, row.line)
+            return
+    scans = []
+    for lp in classify(row):
+        if lp["kind"] != "ITER":
+            continue
+        nxt = [bi for bi in lp["blocks"] if row.blocks[bi]["t"]["k"] == "call" and (row.blocks[bi]["t"].get("res") or "").split("::")[-1] == "next" and "data_offsets" in derive(ix, row.blocks[bi]["t"]["args"][0]).names]
+        if nxt:
+            scans.append((lp, nxt[0]))
+    if len(scans) != 1:
+        ctx.fail_closed("ROWSCAN", f"expected one scan loop over data_offsets in read_row, found {len(scans)}")
+        return
+    lp, nb = scans[0]
+    blocks = lp["blocks"]
+    next_dest = row.blocks[nb]["t"]["dest"]["l"]
+    # the `row_id == id` branch
+    found_targets = []
+    for bi in blocks:
+        t = row.blocks[bi]["t"]
+        if t["k"] != "switch":
+            continue
+        r = ix.resolve(t["a"])
+        if r[0] == "rv" and r[1]["k"] == "bin" and r[1]["op"] in ("Eq", "Ne"):
+            da, db = derive(ix, r[1]["a"]), derive(ix, r[1]["b"])
+            if ("row_id" in da.names and db.params == {3} and not db.names) or ("row_id" in db.names and da.params == {3} and not da.names):
+                false_t = next((tg for v, tg in t["arms"] if int(v) == 0), None)
+                found_targets.append(t.get("else") if r[1]["op"] == "Eq" else false_t)
+    bad = []
+    for bi in sorted(blocks):
+        blk = row.blocks[bi]
+        if blk["cleanup"]:
+            continue
+        for s_ in row.succ(bi):
+            if s_ in blocks or row.blocks[s_]["cleanup"] or row.blocks[s_]["t"]["k"] == "unreachable":
+                continue
+            # leaving the scan: by exhaustion ...
+            t = blk["t"]
+            if t["k"] == "switch":
+                r = ix.resolve(t["a"])
+                if r[0] == "rv" and r[1]["k"] == "discr" and r[1]["p"]["l"] == next_dest:
+                    continue
+            # ... or inside the branch of the matching row
+            if s_ in found_targets or any(ft is not None and row.dominates(ft, bi) for ft in found_targets):
+                continue
+            bad.append(bi)
+    ctx.ob("ROWSCAN", "whole-index", bool(found_targets) and not bad, f"the scan over the row index is left only by exhaustion or inside the `row_id == id` branch; other exits at blocks {bad}" if bad else "the scan over the row index is left only by exhaustion or inside the `row_id == id` branch", row.file, row.line, sample=True)
